@@ -1,8 +1,141 @@
-(* C09/Properties.v — the property theorems of C09 (under construction). *)
+(* C09/Properties.v — the property theorems of C09, and nothing else.
+   Every theorem is closed by [exact <lemma>] and followed by Print Assumptions.
+   Scope of the model (C09/Model.v): threads with timed waits, `thread label`, locals that
+   are nil / integer / string / float bits / object reference / array of scalars shared by
+   reference.  waittill/notify, events, group and level variables, nested arrays are NOT in
+   the model; for them the property is only sampled on the real engine (props/C09.py). *)
 From Coq Require Import NArith ZArith List Bool.
-From Morfuse Require Import C09.Model.
+From Morfuse Require Import C09.Model C09.Spec C09.ProofsIso C09.ProofsSave C09.ProofsWf C09.Proofs.
 Import ListNotations.
 Local Open Scope N_scope.
 
-Example C09_smoke : run [OStart (PSeq (IPrint 1) PEnd)] = [Some (mkObs [PMark 1] true false)].
+(* load_save_iso.  For EVERY saveable state (wf: the members of the instance chains are
+   exactly the threads waiting in the timer, each once; identities below the counters)
+   saving succeeds, loading the archive into the reset engine succeeds, and the loaded
+   state is isomorphic to the saved one: equal up to (1) the renaming of thread identities
+   to their archive indices, (2) per thread the renaming of array-holder identities to
+   their archive indices (holders no variable reaches are dropped), (3) the order of the
+   instance list, which the loader REVERSES (every loaded instance is linked at the front);
+   kept exactly: timer list order and due times, chain order, code positions, variable
+   lists, scalars, which variables share a holder, holder contents, timer time, dirty flag,
+   clocks (C09/Spec.v: iso). *)
+Theorem C09_save_reset_load_gives_an_isomorphic_state :
+  forall s : st, wf s ->
+    exists (a : archive) (s' : st), save s = Some a /\ load a (reset s) = Some s' /\ iso s s'.
+Proof. exact load_save_iso. Qed.
+Print Assumptions C09_save_reset_load_gives_an_isomorphic_state.
+
+(* iso_behaviour.  Isomorphic states cannot be told apart by any continuation: the same
+   prints in the same order, the same idle and waiting flags, the same out-of-fuel
+   verdicts, for every list of host operations. *)
+Theorem C09_isomorphic_states_behave_alike :
+  forall s1 s2 : st, iso s1 s2 -> forall ops : list op, run_from s1 ops = run_from s2 ops.
+Proof. exact iso_behaviour. Qed.
+Print Assumptions C09_isomorphic_states_behave_alike.
+
+Theorem C09_every_operation_keeps_states_isomorphic :
+  forall (s1 s2 : st) (o : op), iso s1 s2 ->
+    match step s1 o, step s2 o with
+    | Some (s1', o1), Some (s2', o2) => iso s1' s2' /\ o1 = o2
+    | None, None => True
+    | _, _ => False
+    end.
+Proof. exact step_iso. Qed.
+Print Assumptions C09_every_operation_keeps_states_isomorphic.
+
+(* Every state the engine model reaches between two host operations is saveable. *)
+Theorem C09_states_between_operations_are_saveable :
+  forall (c : N) (ops : list op) (s : st), state_after (init c) ops = Some s -> wf s.
+Proof. exact reachable_wf. Qed.
+Print Assumptions C09_states_between_operations_are_saveable.
+
+Theorem C09_every_operation_keeps_states_saveable :
+  forall (s : st) (o : op) (s' : st) (ob : obs), wf s -> step s o = Some (s', ob) -> wf s'.
+Proof. exact step_wf. Qed.
+Print Assumptions C09_every_operation_keeps_states_saveable.
+
+(* save_load_transparent.  For every history ops1, every save point (= the state after
+   ops1) and every continuation ops2: save / reset / load succeeds and the observations of
+   the uninterrupted run ops1 ++ ops2 are those of ops1 followed by those of ops2 run from
+   the LOADED state. *)
+Theorem C09_save_reset_load_is_transparent :
+  forall (c : N) (ops1 ops2 : list op) (s : st),
+    state_after (init c) ops1 = Some s ->
+    exists s' : st, save_reset_load s = Some s' /\
+      run_from (init c) (ops1 ++ ops2) = run_from (init c) ops1 ++ run_from s' ops2.
+Proof. exact save_load_transparent. Qed.
+Print Assumptions C09_save_reset_load_is_transparent.
+
+(* ... and the final states (all variables, pending timers) are isomorphic too. *)
+Theorem C09_final_states_are_isomorphic :
+  forall (c : N) (ops1 ops2 : list op) (s : st),
+    state_after (init c) ops1 = Some s ->
+    exists s' : st, save_reset_load s = Some s' /\
+      match state_after (init c) (ops1 ++ ops2), state_after s' ops2 with
+      | Some a, Some b => iso a b
+      | None, None => True
+      | _, _ => False
+      end.
+Proof. exact save_load_final_states. Qed.
+Print Assumptions C09_final_states_are_isomorphic.
+
+(* A loaded state (any state isomorphic to a saveable one) is saveable again: the theorems
+   apply to every later save point as well. *)
+Theorem C09_an_isomorphic_state_is_saveable_again :
+  forall s1 s2 : st, iso s1 s2 -> wf s1 -> wf s2.
+Proof. exact iso_wf. Qed.
+Print Assumptions C09_an_isomorphic_state_is_saveable_again.
+
+(* Non-vacuity.  Script A prints 1, makes local.4 an array {1: 7}, local.5 = local.4 (the
+   same holder), starts a thread in its own instance (prints 2, waits 1, prints 3), waits 2,
+   then writes local.5[2] = 9 and prints local.4[2]; script B holds an EMPTY string, waits 3
+   and prints it.  Saved right after both were started: three threads wait (identities 2, 1
+   in A's chain, 3), the holder has identity 1. *)
+Definition exA : prog :=
+  PSeq (IPrint 1) (PSeq (ISetElem 4 1 (SInt 7)) (PSeq (ICopy 5 4)
+  (PSeq (IThread (PSeq (IPrint 2) (PSeq (IWait 1) (PSeq (IPrint 3) PEnd))))
+  (PSeq (IWait 2) (PSeq (ISetElem 5 2 (SInt 9)) (PSeq (IPrintElem 4 2) PEnd)))))).
+Definition exB : prog := PSeq (ISet 1 (SStr [])) (PSeq (IWait 3) (PSeq (IPrintVar 1) PEnd)).
+Definition ex1 : list op := [OStart exA; OStart exB].
+Definition ex2 : list op := [OAdvance 1; OExecute; OAdvance 1; OExecute; OAdvance 1; OExecute].
+Definition show (o : option obs) := option_map (fun o => (prints o, idle o, waiting o)) o.
+
+(* the archive: instances in list order (B first), A's threads in chain order, the second
+   variable of A's main thread is a pointer to the holder positioned by the first *)
+Example C09_archive_example :
+  match state_after (init 1000) ex1 with Some s => save s | None => None end =
+  Some (mkArc 6
+          [ mkAInst 1 [ mkAThr [(1, AScal (SStr []))] 2 (PSeq (IPrintVar 1) PEnd) ];
+            mkAInst 3 [ mkAThr [] 4 (PSeq (IPrint 3) PEnd);
+                        mkAThr [(4, ANewArr 5 [(1%Z, SInt 7)]); (5, APtrArr 5)] 6
+                               (PSeq (ISetElem 5 2 (SInt 9)) (PSeq (IPrintElem 4 2) PEnd)) ] ]
+          false 0 [(4, 1); (6, 2); (2, 3)]).
+Proof. vm_compute. reflexivity. Qed.
+
+(* the loaded state: instance list reversed, chain order and timer order kept, the two
+   variables share the loaded holder; and the continuation behaves as the uninterrupted run
+   (local.4[2] = 9 through the shared holder, the empty string is printed as such) *)
+Example C09_loaded_state_example :
+  match state_after (init 1000) ex1 with
+  | Some s =>
+      option_map (fun s' => (insts s, insts s',
+                             map (fun e => (th (ethr e), etime e, tenv (ethr e), theap (ethr e))) (elems s'),
+                             map show (run_from s' ex2))) (save_reset_load s)
+  | None => None
+  end =
+  Some ([[3]; [2; 1]], [[4; 6]; [2]],
+        [ (4, 1, [], []);
+          (6, 2, [(4, VArr 5); (5, VArr 5)], [(5, [(1%Z, SInt 7)])]);
+          (2, 3, [(1, VScal (SStr []))], []) ],
+        [ Some ([], false, true); Some ([PMark 3], false, true);
+          Some ([], false, true); Some ([PVal (SInt 9)], false, true);
+          Some ([], false, true); Some ([PVal (SStr [])], true, false) ]).
+Proof. vm_compute. reflexivity. Qed.
+
+Example C09_uninterrupted_run_example :
+  map show (run_from (init 1000) (ex1 ++ ex2)) =
+  [ Some ([PMark 1; PMark 2], false, true); Some ([], false, true);
+    Some ([], false, true); Some ([PMark 3], false, true);
+    Some ([], false, true); Some ([PVal (SInt 9)], false, true);
+    Some ([], false, true); Some ([PVal (SStr [])], true, false) ].
 Proof. vm_compute. reflexivity. Qed.
